@@ -33,7 +33,7 @@ PROPS = {
         assumptions=["A7: sync/atomic, net/http, encoding/json behave as documented; a Track call with race:true is a single atomic read-modify-write (theorem atomic_interleave is about interleavings of such steps; without race only sequential callers are in scope)",
                      "Values as goat builds them: TrackIds = 1..N in order, component ids = positions, component names pairwise distinct, component ids within 1..N (anything else does not compile)"],
     ),
-    "C05": dict(lean=["GoatSpec.Properties.C05"], streams=["ids"], e2e=["track"],
+    "C05": dict(lean=["GoatSpec.Properties.C05"], streams=["ids"], e2e=["track", "patch"],
                 trusted=["modelled, not verified: regexp.QuoteMeta replacement of the placeholder (utils.Replace), text/template rendering of the generated package, go/parser ImportsOnly; directory names are abstract identifiers in the closure model"],
                 assumptions=["the generated file's const block is `TRACK_ID_START = iota` followed by the ids in list order (checked end to end by parsing the generated file)"]),
     "C13": dict(lean=["GoatSpec.Properties.C13"], streams=["paths"], e2e=["track-decoys"],
